@@ -200,6 +200,7 @@ func runC01(e *Engine, r *Report) {
 	ruleConfirmPrefix(e, r)
 	ruleReadBatchCopy(e, r)
 	ruleReadyKeyedByCtx(e, r)
+	ruleReadIndexRespIndex(e, r)
 	// shared mechanisms decided by other properties' rule sets
 	borrow(e, r, "C06", "GD-readindex-accept", "GD-confirm", "GD-confirm-prefix", "WMC-ready-producer")
 	borrow(e, r, "C11", "LS-usersm", "GD-destroyed")
